@@ -135,6 +135,14 @@ def build(S):
     S.assume("optionsfactory value checks (types, ranges) are an external dependency (assumed)")
     static_obligations(S)
     S.contract("Mesh.__init__[option consistency]", FN_M, run_mesh_option_mismatch, shape="one shared, one equilibrium-only, one mesh-only option")
+    from vc.shim import numpy_shimmed
+    from . import C08
+
+    with numpy_shimmed():
+        # documented shape of every 2-d variable: what reaches the file, and from where
+        S.under_contract(C08.FN_GEO, "hypnotoad.core.mesh:BoutMesh.writeArray")
+        S.contract("geometry[assembly of global arrays]", C08.FN_GEO, C08.run_assembly, shape="4 regions, all values symbolic")
+        S.contract("writeArray/writeCorners/writeArrayXDirection", "hypnotoad.core.mesh:BoutMesh.writeArray", C08.run_write_arrays, shape="nx=ny=2")
 
 
 def post(S):
